@@ -1,4 +1,5 @@
 import IdpyVerif.Driver.C14
+import IdpyVerif.Driver.C17
 open Idpy
 
 structure DState where
@@ -7,6 +8,7 @@ structure DState where
 def dispatch (st : DState) (fields : List String) : DState × String :=
   match fields with
   | "lv" :: args => (st, (Driver.C14.codec args).getD "bad-op")
+  | "cookie" :: args => (st, (Driver.C17.handle args).getD "bad-op")
   | "sdb" :: args =>
     let (db', out) := Driver.C14.stepLine st.sdb args
     ({ st with sdb := db' }, out)
